@@ -3,7 +3,7 @@ From MV Require Import C02.Model C02.ProofsBase C02.ProofsCtl C02.ProofsFun C02.
 Local Open Scope Z_scope.
 
 Lemma unt_ticket c s x : VSh c s -> vthr_ok c s x ->
-  (t_pc x = RRead -> 0 <= c_pre c + t_cnt x < s_nw s) ->
+  (t_pc x = RRead -> 0 <= t_start x + t_cnt x < s_nw s) ->
   (t_pc x = KCheck -> s_rc s <> t_pos x -> 0 <= s_nt s < s_nw s) ->
   untouched c s x (CPay (s_begun s)).
 Proof.
@@ -74,6 +74,17 @@ Proof.
   intros [Bsh Ball] Ep Hn. destruct (Ball u) as (_ & _ & _ & Kpc). eapply kcheck_lt; eauto.
 Qed.
 
+(* a reader about to read a slot is behind the writers, at a non-negative logical position *)
+Lemma rread_range s u : AInv c s -> BInv c s -> t_pc (s_thr s u) = RRead ->
+  0 <= t_start (s_thr s u) + t_cnt (s_thr s u) < s_nw s.
+Proof.
+  intros HA [Bsh Ball] Ep.
+  assert (Hm : c_rm c <> ROnce) by (apply (a_rm_r _ _ HA u); rewrite Ep; reflexivity).
+  assert (Hr : is_reader c u = true) by (apply (a_rrole _ _ HA u); rewrite Ep; reflexivity).
+  destruct (Ball u) as (K0 & Kr & _ & Kpc). unfold pc_ok in Kpc. rewrite Ep in Kpc.
+  destruct (Kr Hm) as (_ & _ & _ & C). destruct (C Hr) as (C0 & _). lia.
+Qed.
+
 (* harness: ticket and payload store by thread t *)
 Lemma vinv_ticket s t :
   AInv c s -> BInv c s -> VInv c s ->
@@ -104,8 +115,7 @@ Proof.
     + simpl. rewrite vget_upd_same. lia.
     + simpl. lia.
     + apply unt_ticket; auto.
-      * intros Ep. destruct (Ball u) as (K0 & Kr & _ & Kpc). unfold pc_ok in Kpc. rewrite Ep in Kpc.
-        pose proof (wf_pre _ Hwf). lia.
+      * intros Ep. apply (rread_range s u HA); [split; assumption|exact Ep].
       * intros Ep Hx. apply (kcheck_of_binv s u); [split; assumption|exact Ep|exact Hx].
   - apply vle_bump. apply (proj1 (Vall t)).
   - unfold vcov, v1, bump. simpl. rewrite !vget_upd_same. reflexivity.
@@ -182,9 +192,10 @@ Proof.
   assert (Hm : c_rm c <> ROnce) by (apply (a_rm_r _ _ HA u); rewrite Ep; reflexivity).
   assert (Hr : is_reader c u = true) by (apply (a_rrole _ _ HA u); rewrite Ep; reflexivity).
   destruct (Ball u) as (K0 & Kr & _ & Kpc). unfold pc_ok in Kpc. rewrite Ep in Kpc.
-  destruct (Kr Hm) as (A & _ & C). destruct (C Hr) as [_ C2].
-  destruct (Ball' u) as (_ & Kr' & _ & _). rewrite Hsame in Kr'. destruct (Kr' Hm) as (_ & _ & C').
-  destruct (C' Hr) as [C1' _]. rewrite (b_cur _ _ Bsh), C2.
+  destruct Kpc as [Kpc Krem].
+  destruct (Kr Hm) as (A0 & A & _ & C). destruct (C Hr) as (_ & _ & C2).
+  destruct (Ball' u) as (_ & Kr' & _ & _). rewrite Hsame in Kr'. destruct (Kr' Hm) as (_ & _ & _ & C').
+  destruct (C' Hr) as (_ & C1' & _). specialize (C1' Krem). rewrite (b_cur _ _ Bsh), C2.
   pose proof (cap_pos c). apply not_eq_sym. apply mod_neq; lia.
 Qed.
 
@@ -325,7 +336,7 @@ Proof.
         -- apply Vall.
         -- eapply crit_others; eauto. rewrite Epc. reflexivity.
         -- intros Hw. eapply wpc_others_single; eauto. rewrite Epc. reflexivity.
-        -- intros Ep. destruct (Ball u) as (K0' & _ & _ & Kpc'). unfold pc_ok in Kpc'. rewrite Ep in Kpc'. lia.
+        -- intros Ep. apply (rread_range s u HA HB Ep).
         -- intros Ep Hx. apply (kcheck_of_binv s u HB Ep Hx).
   - (* WUnlockSeg *) inv_some Hs. vpc_only HV Vle Vsg Epc. exact Vpc.
   - (* WUnlock *)
@@ -381,6 +392,8 @@ Proof.
     destruct (t_rem (s_thr s t)); inv_some Hs; vpc_only HV Vle Vsg Epc; exact I.
   - (* RLoad *)
     assert (Hm : c_rm c <> ROnce) by (apply (a_rm_r _ _ HA t); rewrite Epc; reflexivity).
+    assert (Hrd : is_reader c t = true) by (apply (a_rrole _ _ HA t); rewrite Epc; reflexivity).
+    destruct (Kr Hm) as (_ & _ & _ & C). destruct (C Hrd) as (C0 & _ & _).
     inv_some Hs. unfold acq_join. rewrite Hmr.
     destruct HB' as [_ Ball']. pose proof (Ball' t) as Kt'. simpl in Kt'. unfold upd in Kt'.
     rewrite Nat.eqb_refl in Kt'. destruct Kt' as (_ & _ & _ & Kpc'). unfold pc_ok in Kpc'. simpl in Kpc'.
@@ -394,13 +407,14 @@ Proof.
         -- unfold vcov. simpl. apply vget_join_l; [exact Vle|apply (v_cur_le _ _ Vsh)|].
            apply (v_cur_slot _ _ Vsh). right. rewrite <- (b_cur _ _ Bsh). congruence.
         -- unfold vcov. simpl. apply vget_join_l; [exact Vle|apply (v_cur_le _ _ Vsh)|].
-           apply (v_cur_pay _ _ Vsh). lia.
+           apply (v_cur_pay _ _ Vsh). destruct Kpc' as [Kpc' _]. lia.
   - (* RRead *)
     assert (Hm : c_rm c <> ROnce) by (apply (a_rm_r _ _ HA t); rewrite Epc; reflexivity).
     destruct Vpc as [Vs Vp].
     assert (Hrd : is_reader c t = true) by (apply (a_rrole _ _ HA t); rewrite Epc; reflexivity).
-    destruct (Kr Hm) as (A & B & C). destruct (C Hrd) as [C1 C2].
-    assert (Hmsg : s_slot s (t_idx (s_thr s t) mod cap c) = s_wr s (c_pre c + t_cnt (s_thr s t))).
+    destruct (Kr Hm) as (A0 & A & B & C). destruct (C Hrd) as (C0 & C1 & C2).
+    destruct Kpc as [Kpc Krem]. specialize (C1 Krem).
+    assert (Hmsg : s_slot s (t_idx (s_thr s t) mod cap c) = s_wr s (t_start (s_thr s t) + t_cnt (s_thr s t))).
     { rewrite C2. apply (b_slots _ _ Bsh); lia. }
     assert (Hu : Nat.add (unc1 (covered (t_view (s_thr s t)) (s_ver s) (CSlot (t_idx (s_thr s t) mod cap c))))
                   (unc1 (if 0 <=? c_val c (s_slot s (t_idx (s_thr s t) mod cap c))
@@ -408,7 +422,7 @@ Proof.
                                (CPay (c_val c (s_slot s (t_idx (s_thr s t) mod cap c))))
                         else true)) = 0%nat).
     { unfold covered. unfold vcov in Vs, Vp. rewrite Hmsg. rewrite Vs, Z.eqb_refl.
-      destruct (Z.leb_spec 0 (c_val c (s_wr s (c_pre c + t_cnt (s_thr s t))))) as [Hv|Hv]; [|reflexivity].
+      destruct (Z.leb_spec 0 (c_val c (s_wr s (t_start (s_thr s t) + t_cnt (s_thr s t))))) as [Hv|Hv]; [|reflexivity].
       rewrite (wf_val _ Hwf _ Hv), Vp, Z.eqb_refl. reflexivity. }
     inv_some Hs. rewrite Hu.
     destruct Vsh as [H1 H2 H3 H4 H5 H6 H7 H8 H9 H10]. split.
